@@ -10,15 +10,26 @@ use std::sync::{Arc, Mutex};
 use vharness::common::{env_seed, mix, write_replay, Args, StageReport, Violation};
 use vharness::routersim::{exec, pubsub, reqrep, RunResult};
 
-fn families(property: &str) -> Vec<(&'static str, &'static str)> {
+/// (engine, family, classes): `classes` = None → every oracle class of the run counts for this property
+/// (minus `excluded`); Some(list) → only those classes count (used when a property borrows the workload
+/// family of another property to reach more states)
+type Fam = (&'static str, &'static str, Option<&'static [&'static str]>);
+
+fn families(property: &str) -> Vec<Fam> {
+    const C02_CORE: &[&str] = &["routing", "flush", "probe", "panic", "spin", "livelock"];
+    const C09_CORE: &[&str] = &["spin", "livelock", "sleep"];
     match property {
-        "C01" => vec![("pubsub", "c01")],
-        "C02" => vec![("reqrep", "c02")],
-        "C08" => vec![("pubsub", "c08"), ("reqrep", "c08")],
-        "C09" => vec![("pubsub", "c09"), ("reqrep", "c09")],
-        "C10" => vec![("reqrep", "c10")],
-        "C11" => vec![("pubsub", "c11"), ("reqrep", "c11")],
-        "C16" => vec![("pubsub", "c16"), ("reqrep", "c16")],
+        // the fault family is included: the statement is about subscribers that *stay healthy* while
+        // others may fail, be evicted and be replaced by new registrations
+        "C01" => vec![("pubsub", "c01", None), ("pubsub", "c01", None), ("pubsub", "c08", None)],
+        // replier bind/unbind interleaved with requests and replies is part of the quantifier
+        "C02" => vec![("reqrep", "c02", None), ("reqrep", "c02", None), ("reqrep", "c10", Some(C02_CORE))],
+        "C08" => vec![("pubsub", "c08", None), ("reqrep", "c08", None)],
+        // "all reachable router states" includes the states reached through faults and re-binding
+        "C09" => vec![("pubsub", "c09", None), ("reqrep", "c09", None), ("pubsub", "c09", None), ("reqrep", "c09", None), ("pubsub", "c08", Some(C09_CORE)), ("reqrep", "c08", Some(C09_CORE)), ("reqrep", "c10", Some(C09_CORE))],
+        "C10" => vec![("reqrep", "c10", None)],
+        "C11" => vec![("pubsub", "c11", None), ("reqrep", "c11", None)],
+        "C16" => vec![("pubsub", "c16", None), ("reqrep", "c16", None)],
         _ => vec![],
     }
 }
@@ -138,7 +149,7 @@ fn main() {
                 if i >= runs {
                     break;
                 }
-                let (engine, family) = fams[(i % fams.len() as u64) as usize];
+                let (engine, family, only) = fams[(i % fams.len() as u64) as usize];
                 let run_seed = mix(mix(seed, i), vharness::common::fnv(family.as_bytes()) ^ vharness::common::fnv(engine.as_bytes()));
                 let keep = i < fams.len() as u64 * 2;
                 let r = run_one(engine, family, run_seed, keep);
@@ -173,7 +184,7 @@ fn main() {
                 }
                 let mut seen_sig = HashSet::new();
                 for f in &r.findings {
-                    if ex.contains(&f.class) {
+                    if ex.contains(&f.class) || only.map_or(false, |o| !o.contains(&f.class)) {
                         local.count(&format!("findings_of_other_properties/{}", f.sig), 1);
                         continue;
                     }
@@ -213,7 +224,7 @@ fn main() {
     rep.extra.insert("distinct_poll_signatures".into(), json!(poll_sigs.lock().unwrap().len()));
     rep.extra.insert("distinct_abstract_states_at_poll_return".into(), json!(states.lock().unwrap().len()));
     rep.extra.insert("scenario_goals_hit".into(), json!(*goals.lock().unwrap()));
-    rep.extra.insert("families".into(), json!(fams.iter().map(|(e, f)| format!("{}/{}", e, f)).collect::<Vec<_>>()));
+    rep.extra.insert("families".into(), json!(fams.iter().map(|(e, f, only)| format!("{}/{}{}", e, f, only.map(|o| format!(" (classes {:?})", o)).unwrap_or_default())).collect::<Vec<_>>()));
     rep.assumptions = vec![
         "mock sinks/streams follow the futures Sink/Stream contracts and the observed behaviour of tokio-util FramedWrite/FramedRead (re-poll after end yields None again; a pending mock stores the waker and fires it when unblocked)".into(),
         "the executor polls the router exactly when its waker fired (plus optional spurious polls in families that allow them)".into(),
